@@ -98,6 +98,7 @@ func (c *client) SendRPC(rpc hrpc.Call) (msg proto.Message, err error) {
 
 	backoff := backoffStart
 	serverErrorCount := 0
+	notServingCount := 0
 	for {
 		rc, err := c.getRegionAndClientForRPC(ctx, rpc)
 		if err != nil {
@@ -126,6 +127,18 @@ func (c *client) SendRPC(rpc hrpc.Call) (msg proto.Message, err error) {
 			serverErrorCount++
 			continue // retry
 		case region.NotServingRegionError:
+			// The region gets re-established before the retry goes out and the
+			// establisher backs off for as long as the region is not online. But
+			// a region can pass the establisher's probe and still refuse this
+			// request: back off if it keeps doing so.
+			if notServingCount > 1 {
+				sp.AddEvent("retrySleep")
+				backoff, err = sleepAndIncreaseBackoff(ctx, backoff)
+				if err != nil {
+					return msg, err
+				}
+			}
+			notServingCount++
 			continue // retry
 		}
 		return msg, err
@@ -277,6 +290,7 @@ func (c *client) SendBatch(ctx context.Context, batch []hrpc.Call) (
 	var retries []hrpc.Call
 	backoff := backoffStart
 	serverErrorCount := 0
+	notServingCount := 0
 
 	for {
 		// findClients reports errors by position in the batch it is given. In retry
@@ -352,7 +366,20 @@ func (c *client) SendBatch(ctx context.Context, batch []hrpc.Call) (
 			}
 			serverErrorCount++
 		} else {
-			sp.AddEvent("retry")
+			// Only NotServingRegionError is left: the regions get re-established
+			// before the next round goes out, but back off if they keep refusing
+			// the calls although they pass the establisher's probe.
+			if notServingCount > 1 {
+				sp.AddEvent("retrySleep")
+				var err error
+				backoff, err = sleepAndIncreaseBackoff(ctx, backoff)
+				if err != nil {
+					break
+				}
+			} else {
+				sp.AddEvent("retry")
+			}
+			notServingCount++
 		}
 		// Set state for next loop iteration
 		batch = retries
